@@ -130,8 +130,13 @@ int TC_thread_id(TCx* tc) __CPROVER_assigns() __CPROVER_ensures(1);
 int TC_thread_name(TCx* tc) __CPROVER_assigns() __CPROVER_ensures(1);
 void BW_dispatch(BW* self, TE* te, int tid, int tname) __CPROVER_assigns(g_dispatches, g_clock, g_t_dispatch, g_exc)
 __CPROVER_ensures(g_dispatches == OLD(g_dispatches) + 1 && g_clock == OLD(g_clock) + 1 && g_t_dispatch == g_clock && (g_exc == 0 || g_exc == EXC_STD || g_exc == EXC_OTHER));
-void BS_process(BSs* b, BW* self) __CPROVER_requires(__CPROVER_is_fresh(b, sizeof(*b))) __CPROVER_assigns(b->g_processes, g_clock, g_t_bt_process, g_exc)
-__CPROVER_ensures(b->g_processes == OLD(b->g_processes) + 1 && g_clock == OLD(g_clock) + 1 && g_t_bt_process == g_clock && (g_exc == 0 || g_exc == EXC_STD || g_exc == EXC_OTHER));
+/* BacktraceStorage::process with a replay callback that contains its exceptions (unit BW.bt_dispatch): cannot throw */
+void BS_process_via__dispatch_backtrace_transit_event_to_sinks(BSs* b, BW* self) __CPROVER_requires(__CPROVER_is_fresh(b, sizeof(*b))) __CPROVER_assigns(b->g_processes, g_clock, g_t_bt_process)
+__CPROVER_ensures(b->g_processes == OLD(b->g_processes) + 1 && g_clock == OLD(g_clock) + 1 && g_t_bt_process == g_clock);
+/* ... with the plain dispatcher as callback: a throwing sink aborts the replay and leaves the replayed statements stored */
+bool g_replay_aborted;
+void BS_process_via__dispatch_transit_event_to_sinks(BSs* b, BW* self) __CPROVER_requires(__CPROVER_is_fresh(b, sizeof(*b))) __CPROVER_assigns(b->g_processes, g_clock, g_t_bt_process, g_exc, g_replay_aborted)
+__CPROVER_ensures(b->g_processes == OLD(b->g_processes) + 1 && g_clock == OLD(g_clock) + 1 && g_t_bt_process == g_clock && (g_exc == 0 || g_exc == EXC_STD || g_exc == EXC_OTHER) && g_replay_aborted == (g_exc != 0));
 void BS_store(BSs* b, TE* copy, int tid, int tname) __CPROVER_requires(__CPROVER_is_fresh(b, sizeof(*b))) __CPROVER_assigns(b->g_stores) __CPROVER_ensures(b->g_stores == OLD(b->g_stores) + 1);
 void BS_set_capacity(BSs* b, uint32_t c) __CPROVER_requires(__CPROVER_is_fresh(b, sizeof(*b))) __CPROVER_assigns(b->g_setcaps) __CPROVER_ensures(b->g_setcaps == OLD(b->g_setcaps) + 1);
 BSs* BS_make(void) __CPROVER_assigns(g_new_storage) __CPROVER_ensures(__CPROVER_is_fresh(RET, sizeof(BSs)) && RET->g_stores == 0 && RET->g_processes == 0 && RET->g_setcaps == 0 && g_new_storage == OLD(g_new_storage) + 1);
@@ -152,10 +157,10 @@ PE_CONTRACT = r'''
 __CPROVER_requires(__CPROVER_is_fresh(self, sizeof(*self)) && __CPROVER_is_fresh(thread_context_p, sizeof(TCx)) && __CPROVER_is_fresh(transit_event_p, sizeof(TE)) && __CPROVER_is_fresh(flush_flag_p, sizeof(FlushFlag*)))
 __CPROVER_requires(__CPROVER_is_fresh(transit_event_p->macro_metadata, sizeof(MacroMetadata)) && __CPROVER_is_fresh(transit_event_p->logger_base, sizeof(LoggerBase)))
 __CPROVER_requires(STO(transit_event_p) == NULL || __CPROVER_is_fresh(STO(transit_event_p), sizeof(BSs)))
-__CPROVER_requires(g_exc == 0 && g_clock == 0 && g_dispatches == 0 && g_flushes == 0 && g_new_storage == 0 && g_t_dispatch == 0 && g_t_bt_process == 0 && *flush_flag_p == NULL)
+__CPROVER_requires(g_exc == 0 && g_clock == 0 && g_dispatches == 0 && g_flushes == 0 && g_new_storage == 0 && !g_replay_aborted && g_t_dispatch == 0 && g_t_bt_process == 0 && *flush_flag_p == NULL)
 __CPROVER_requires(LV(transit_event_p) <= LL_Dynamic && transit_event_p->macro_metadata->g_event <= EV_LoggerRemovalRequest && transit_event_p->logger_base->backtrace_flush_level <= LL_Dynamic)
 __CPROVER_requires(STO(transit_event_p) != NULL ==> (STO(transit_event_p)->g_stores == 0 && STO(transit_event_p)->g_processes == 0 && STO(transit_event_p)->g_setcaps == 0))
-__CPROVER_assigns(g_exc, g_clock, g_dispatches, g_t_dispatch, g_t_bt_process, g_t_flush, g_flushes, g_new_storage, *flush_flag_p, transit_event_p->flush_flag, transit_event_p->logger_base->backtrace_storage)
+__CPROVER_assigns(g_exc, g_clock, g_dispatches, g_t_dispatch, g_t_bt_process, g_t_flush, g_flushes, g_new_storage, g_replay_aborted, *flush_flag_p, transit_event_p->flush_flag, transit_event_p->logger_base->backtrace_storage)
 __CPROVER_assigns(STO(transit_event_p) != NULL: __CPROVER_object_whole(STO(transit_event_p)))
 #define EVT (transit_event_p->macro_metadata->g_event)
 #define OLD_STO OLD(STO(transit_event_p))
@@ -167,6 +172,7 @@ __CPROVER_ensures((EVT == EV_Log && LV(transit_event_p) != LL_Backtrace && g_exc
 __CPROVER_ensures((EVT == EV_Log && LV(transit_event_p) != LL_Backtrace && g_exc == 0 && OLD_STO != NULL && STO(transit_event_p)->g_processes == 1) ==> g_t_dispatch < g_t_bt_process) /*@ C18 "the replay comes immediately after the triggering statement" */
 __CPROVER_ensures((EVT == EV_FlushBacktrace && OLD_STO != NULL && g_exc == 0) ==> (STO(transit_event_p)->g_processes == 1 && g_dispatches == 0)) /*@ C18 "flush_backtrace() replays the stored statements of its logger" */
 __CPROVER_ensures((EVT == EV_InitBacktrace && g_exc == 0) ==> (STO(transit_event_p) != NULL && STO(transit_event_p)->g_setcaps == 1 && g_new_storage == (OLD_STO == NULL ? 1 : 0) && (OLD_STO != NULL ==> STO(transit_event_p) == OLD_STO))) /*@ C18 "init_backtrace() creates the storage once and sets its capacity" */
+__CPROVER_ensures(!g_replay_aborted) /*@ C10 "a sink that throws during a backtrace replay does not abort the replay (already replayed statements would be written again by the next flush)" */
 __CPROVER_ensures(EVT == EV_Flush ==> (g_flushes == 1 && *flush_flag_p == OLD(transit_event_p->flush_flag) && transit_event_p->flush_flag == NULL && g_dispatches == 0)) /*@ C06 "a flush event flushes every active sink and only then hands the caller's flag back; the reused event forgets the flag" */
 __CPROVER_ensures(EVT != EV_Flush ==> (g_flushes == 0 && *flush_flag_p == NULL)) /*@ C06 "no other event releases a flush caller" */
 '''
@@ -175,7 +181,7 @@ process_event = dict(
     name='BW.process_event', primary='C18', props={'C18', 'C06', 'C10'}, kind='S',
     desc='BackendWorker::_process_transit_event: store vs dispatch vs replay decision, flush event handling',
     structs=[], prelude=PE_PRELUDE, enforce='BW__process_transit_event',
-    replace=['MM_event', 'TE_log_level', 'TC_thread_id', 'TC_thread_name', 'BW_dispatch', 'BS_process', 'BS_store', 'BS_set_capacity', 'BS_make', 'PARSE_CAPACITY', 'TE_copy_to', 'BW_flush_sinks'],
+    replace=['MM_event', 'TE_log_level', 'TC_thread_id', 'TC_thread_name', 'BW_dispatch', 'BS_process_via__dispatch_backtrace_transit_event_to_sinks', 'BS_process_via__dispatch_transit_event_to_sinks', 'BS_store', 'BS_set_capacity', 'BS_make', 'PARSE_CAPACITY', 'TE_copy_to', 'BW_flush_sinks'],
     funcs=[dict(src=dict(header=H, cls='BackendWorker', name='_process_transit_event'), src_params=['thread_context', 'transit_event', 'flush_flag'],
                 cfun='BW__process_transit_event', sig='void BW__process_transit_event(BW* self, TCx* thread_context_p, TE* transit_event_p, FlushFlag** flush_flag_p)',
                 cls_c='BW', member_fields=[], siblings=['_dispatch_transit_event_to_sinks', '_flush_and_run_active_sinks'],
@@ -183,7 +189,7 @@ process_event = dict(
                 methods={'event': 'MM_event', 'log_level': 'TE_log_level', 'thread_id': 'TC_thread_id', 'thread_name': 'TC_thread_name',
                          'store': 'BS_store', 'set_capacity': 'BS_set_capacity', 'copy_to': 'TE_copy_to'},
                 pre_rules=[(r'(?<![.>\w])flush_flag\b', '(*flush_flag_p)', 1), (r'MacroMetadata::Event::(\w+)', r'EV_\1'), (r'LogLevel::(\w+)', r'LL_\1'),
-                           (r'(\w+\.logger_base->backtrace_storage)->process\s*\(\s*\[this\].*?\}\s*\)\s*;', r'BS_process(\1, self);', 2),
+                           (r'(\w+\.logger_base->backtrace_storage)->process\s*\(\s*\[this\]\([^()]*\)\s*\{\s*(\w+)\(te, thread_id, thread_name\);\s*\}\s*\)\s*;', r'BS_process_via_\2(\1, self);', 2),
                            (r'std::make_shared<BacktraceStorage>\(\)', 'BS_make()', 1),
                            (r'static_cast<uint32_t>\(std::stoul\(\s*std::string\{[^{}]*\}\)\)', 'PARSE_CAPACITY(&transit_event)', 1),
                            (r'TransitEvent\s+transit_event_copy\s*;', 'TE transit_event_copy;', 1),
@@ -191,7 +197,7 @@ process_event = dict(
                            (r'std::chrono::milliseconds\{0\}', '0', 1),
                            (r'throw\s*\(\s*QuillError\s*\{.*?\}\s*\)\s*;', 'throw(QuillError{"x"});', 1)],
                 rules=[(r'ATOMIC_LOAD_backtrace_flush_level\((.*?), MO_RELAXED\)', r'((\1)->backtrace_flush_level)', 1)],
-                exceptions=True, may_throw=['BW__dispatch_transit_event_to_sinks', 'BS_process', 'PARSE_CAPACITY'],
+                exceptions=True, may_throw=['BW__dispatch_transit_event_to_sinks', 'BS_process_via__dispatch_transit_event_to_sinks', 'PARSE_CAPACITY'],
                 contract=PE_CONTRACT)],
     harness='  BW* s; TCx* tc; TE* te; FlushFlag** ff; BW__process_transit_event(s, tc, te, ff);',
     dropped=['formatted message / named args of the event', 'the lambda passed to BacktraceStorage::process (it dispatches each replayed event: unit BS.process + BW.dispatch)', 'std::stoul text parsing of the capacity'],
@@ -199,3 +205,32 @@ process_event = dict(
     min_obligations=50)
 
 UNITS = [process_lowest, process_event]
+
+# --------------------------------------------------------------------------------------------- _dispatch_backtrace_transit_event_to_sinks
+BD_PRELUDE = r'''
+typedef struct TE { int dummy; } TE; typedef struct BW { int dummy; } BW;
+size_t g_notify_calls, g_dispatches; int g_thrown;
+void BW_dispatch(BW* self, TE* te, int tid, int tname) __CPROVER_assigns(g_dispatches, g_exc, g_thrown)
+__CPROVER_ensures(g_dispatches == OLD(g_dispatches) + 1 && (g_exc == 0 || g_exc == EXC_STD || g_exc == EXC_OTHER) && g_thrown == g_exc);
+void ERROR_NOTIFIER(BW* self) __CPROVER_assigns(g_notify_calls) __CPROVER_ensures(g_notify_calls == OLD(g_notify_calls) + 1);
+#define transit_event (*transit_event_p)
+#define BW__dispatch_transit_event_to_sinks(self, te, a, b) BW_dispatch(self, &(te), a, b)
+'''
+bt_dispatch = dict(
+    name='BW.bt_dispatch', primary='C10', props={'C10', 'C18'}, kind='S',
+    desc='BackendWorker::_dispatch_backtrace_transit_event_to_sinks (the replay callback): a throwing sink is reported and contained per replayed statement',
+    structs=[], prelude=BD_PRELUDE, enforce='BW__dispatch_backtrace_transit_event_to_sinks', replace=['BW_dispatch', 'ERROR_NOTIFIER'],
+    funcs=[dict(src=dict(header=H, cls='BackendWorker', name='_dispatch_backtrace_transit_event_to_sinks'), src_params=['transit_event', 'thread_id', 'thread_name'],
+                cfun='BW__dispatch_backtrace_transit_event_to_sinks', sig='void BW__dispatch_backtrace_transit_event_to_sinks(BW* self, TE* transit_event_p, int thread_id, int thread_name)',
+                cls_c='BW', member_fields=[], siblings=['_dispatch_transit_event_to_sinks'],
+                pre_rules=[(r'_options\.error_notifier\s*\([^;]*\)\s*;', 'ERROR_NOTIFIER(self);')],
+                exceptions=True, may_throw=['BW__dispatch_transit_event_to_sinks'],
+                contract=r'''
+__CPROVER_requires(__CPROVER_is_fresh(self, sizeof(*self)) && __CPROVER_is_fresh(transit_event_p, sizeof(TE)) && g_exc == 0 && g_notify_calls == 0 && g_dispatches == 0 && g_thrown == 0)
+__CPROVER_assigns(g_exc, g_notify_calls, g_dispatches, g_thrown)
+__CPROVER_ensures(g_exc == 0) /*@ C10 "a sink that throws while a backtrace statement is replayed is contained: the replay continues with the next stored statement" */
+__CPROVER_ensures(g_dispatches == 1 && g_notify_calls == (g_thrown != 0 ? 1 : 0)) /*@ C10 "the replayed statement is dispatched once and a failure is reported once" */
+''')],
+    harness='  BW* s; TE* te; int a, b; BW__dispatch_backtrace_transit_event_to_sinks(s, te, a, b);',
+    dropped=['text passed to the notifier'], trusted=[], min_obligations=10)
+UNITS.append(bt_dispatch)
